@@ -371,17 +371,50 @@ struct FnEmitter {
 
     // does the (sugared) type come from a template type parameter, i.e. is it a type the library's user supplies?
     // (in an instantiation such types are SubstTemplateTypeParmType sugar; pointers/references to them count as well)
-    bool isTP(QualType T, bool throughPointers = false) {
+    // 0: no; 1: yes, replaced by a type the user could supply (builtin, std, the drivers' own); 2: yes, but the template is an
+    // internal one and was given one of the library's own types (basic_tls<thread_data*>, fold_tree<tree_node>): "tpl"
+    int tpKind(QualType T, bool throughPointers = false) {
         for (int guard = 0; guard < 32 && !T.isNull(); ++guard) {
             const Type *P = T.getTypePtr();
-            if (isa<SubstTemplateTypeParmType>(P)) return true;
+            if (auto *ST = dyn_cast<SubstTemplateTypeParmType>(P)) {
+                // a parameter of a standard-library template (std::atomic<std::uint64_t>::__int_type ...) says nothing by itself:
+                // what it was replaced with decides (still sugar for the library's own parameter when that is where it came from)
+                const TemplateTypeParmDecl *PD = ST->getReplacedParameter() ? ST->getReplacedParameter()->getDecl() : nullptr;
+                bool inStd = false;
+                if (PD) for (const DeclContext *DC = PD->getDeclContext(); DC; DC = DC->getParent())
+                    if (DC->isStdNamespace()) { inStd = true; break; }
+                if (!inStd && PD && C.AC->getSourceManager().isInSystemHeader(PD->getLocation())) inStd = true;
+                if (inStd) { T = ST->getReplacementType(); continue; }
+                QualType R = ST->getReplacementType().getCanonicalType();
+                for (int g2 = 0; g2 < 8; ++g2) {
+                    if (R->isPointerType() || R->isReferenceType()) { R = R->getPointeeType().getCanonicalType(); continue; }
+                    break;
+                }
+                if (auto *RD = R->getAsCXXRecordDecl()) {
+                    // declared (at any depth: member classes, local lambdas) inside namespace tbb::detail
+                    for (const DeclContext *DC = RD->getDeclContext(); DC; DC = DC->getParent())
+                        if (auto *NS = dyn_cast<NamespaceDecl>(DC))
+                            if (NS->getName() == "detail")
+                                if (auto *PN = dyn_cast_or_null<NamespaceDecl>(NS->getParent()))
+                                    if (PN->getName() == "tbb") return 2;
+                }
+                return 1;
+            }
             if (auto *R = dyn_cast<ReferenceType>(P)) { T = R->getPointeeTypeAsWritten(); continue; }
-            if (auto *PT = dyn_cast<PointerType>(P)) { if (!throughPointers) return false; T = PT->getPointeeType(); continue; }
+            if (auto *PT = dyn_cast<PointerType>(P)) { if (!throughPointers) return 0; T = PT->getPointeeType(); continue; }
             QualType D = T.getSingleStepDesugaredType(*C.AC);
             if (D == T) break;
             T = D;
         }
-        return false;
+        return 0;
+    }
+    bool isTP(QualType T, bool throughPointers = false) { return tpKind(T, throughPointers) != 0; }
+    std::string tpOut(std::initializer_list<int> ks) {
+        bool u = false, l = false;
+        for (int k : ks) { if (k == 1) u = true; if (k == 2) l = true; }
+        if (u) return ",\"tp\":1";
+        if (l) return ",\"tp\":1,\"tpl\":1";
+        return "";
     }
 
     std::string intInfo(QualType T) {
@@ -486,7 +519,7 @@ struct FnEmitter {
                     o += ",\"fx\":" + std::to_string(child(MC->getCallee()));
                 }
                 o += ",\"obj\":" + std::to_string(child(MC->getImplicitObjectArgument()));
-                if (MC->getImplicitObjectArgument() && isTP(MC->getImplicitObjectArgument()->IgnoreParenImpCasts()->getType(), true)) o += ",\"tp\":1";
+                if (MC->getImplicitObjectArgument()) o += tpOut({tpKind(MC->getImplicitObjectArgument()->IgnoreParenImpCasts()->getType(), true)});
                 std::vector<const Expr *> as(MC->arg_begin(), MC->arg_end());
                 o += ",\"a\":" + kids(as);
             } else if (auto *OC = dyn_cast<CXXOperatorCallExpr>(E)) {
@@ -497,7 +530,7 @@ struct FnEmitter {
                 else o += ",\"fx\":" + std::to_string(child(OC->getCallee()));
                 o += ",\"op\":" + jstr(getOperatorSpelling(OC->getOperator()));
                 std::vector<const Expr *> as(OC->arg_begin(), OC->arg_end());
-                for (auto *a : as) if (isTP(a->IgnoreParenImpCasts()->getType())) { o += ",\"tp\":1"; break; }
+                { int u_ = 0, l_ = 0; for (auto *a : as) { int k_ = tpKind(a->IgnoreParenImpCasts()->getType()); if (k_ == 1) u_ = 1; if (k_ == 2) l_ = 2; } o += tpOut({u_, l_}); }
                 if (member && !as.empty()) {
                     o += ",\"obj\":" + std::to_string(child(as[0]));
                     as.erase(as.begin());
@@ -514,7 +547,7 @@ struct FnEmitter {
                 o += ",\"a\":" + kids(as);
             } else if (auto *CC = dyn_cast<CXXConstructExpr>(E)) {
                 o += ",\"k\":\"ctor\",\"fn\":" + calleeJson(CC->getConstructor());
-                if (isTP(CC->getType())) o += ",\"tp\":1";
+                o += tpOut({tpKind(CC->getType())});
                 if (auto *RD = CC->getConstructor()->getParent()) o += ",\"cls\":" + jstr(C.pname(RD));
                 if (CC->isElidable()) o += ",\"elide\":1";
                 std::vector<const Expr *> as(CC->arg_begin(), CC->arg_end());
@@ -523,7 +556,7 @@ struct FnEmitter {
                 o += ",\"k\":\"new\"";
                 if (NE->getOperatorNew()) o += ",\"fn\":" + calleeJson(NE->getOperatorNew());
                 o += ",\"ty\":" + jstr(C.tyStr(NE->getAllocatedType()));
-                if (isTP(NE->getAllocatedType())) o += ",\"tp\":1";
+                o += tpOut({tpKind(NE->getAllocatedType())});
                 if (auto *RD = NE->getAllocatedType()->getAsCXXRecordDecl()) o += ",\"cls\":" + jstr(C.pname(RD));
                 std::vector<const Expr *> as(NE->placement_arg_begin(), NE->placement_arg_end());
                 o += ",\"pl\":" + kids(as);
@@ -567,11 +600,11 @@ struct FnEmitter {
             } else if (isa<CXXThisExpr>(E)) {
                 o += ",\"k\":\"this\"";
             } else if (auto *UO = dyn_cast<UnaryOperator>(E)) {
-                if (isTP(UO->getSubExpr()->IgnoreParenImpCasts()->getType())) o += ",\"tp\":1";
+                o += tpOut({tpKind(UO->getSubExpr()->IgnoreParenImpCasts()->getType())});
                 o += ",\"k\":\"unop\",\"op\":" + jstr(UnaryOperator::getOpcodeStr(UO->getOpcode())) +
                      (UO->isPostfix() ? ",\"post\":1" : "") + ",\"sub\":" + std::to_string(child(UO->getSubExpr()));
             } else if (auto *BO = dyn_cast<BinaryOperator>(E)) {
-                if (isTP(BO->getLHS()->IgnoreParenImpCasts()->getType()) || isTP(BO->getRHS()->IgnoreParenImpCasts()->getType())) o += ",\"tp\":1";
+                o += tpOut({tpKind(BO->getLHS()->IgnoreParenImpCasts()->getType()), tpKind(BO->getRHS()->IgnoreParenImpCasts()->getType())});
                 o += ",\"k\":\"binop\",\"op\":" + jstr(BO->getOpcodeStr()) + ",\"l\":" + std::to_string(child(BO->getLHS())) +
                      ",\"r\":" + std::to_string(child(BO->getRHS()));
                 // comparisons: the (common) operand type after the usual arithmetic conversions -- K14 needs the signedness
